@@ -271,8 +271,24 @@ def install() -> None:
     _wrap_method(DCMotor, "stop", _motor_emit)
     _wrap_method(DCMotor, "coast", _motor_emit)
     def _ser(rec, mon, text):
+        text = str(text)
+        if text.startswith("@"):
+            # sync marker: snapshot every LCD model (the mock board dumps its cell matrices on the same line)
+            snap = []
+            for lcd in rec.lcds:
+                snap.append(
+                    {
+                        "rows": list(lcd.buffer),
+                        "display": bool(lcd.display_on),
+                        "backlight": bool(lcd.backlight_on),
+                        "brightness": int(lcd.brightness_level),
+                        "glyphs": {int(k): list(v) for k, v in lcd.glyphs.items()},
+                    }
+                )
+            rec.trace.raw.append((rec.now_ms, rec.phase, "SYNC", (text, snap)))
+            return
         # what reaches the wire is text + newline: an embedded newline makes several lines
-        for part in str(text).split("\n"):
+        for part in text.split("\n"):
             rec.event("ser", part)
 
     _wrap_method(SerialMonitor, "write", _ser)
